@@ -11,11 +11,18 @@ env = dict(os.environ, GOFLAGS="-mod=mod", GOPROXY="off", CGO_ENABLED=os.environ
 def sh(cmd):
     r = subprocess.run(cmd, shell=True, cwd=wt, env=env, capture_output=True, text=True)
     return r.returncode, (r.stdout + r.stderr)[-1500:]
-pkgs = sorted(set("./" + os.path.dirname(f) + "/" for f in meta["files_changed"]))
+def modroot(d):
+    while d and not os.path.exists(os.path.join(wt, d, "go.mod")):
+        d = os.path.dirname(d)
+    return d
+bymod = {}
+for f in meta["files_changed"]:
+    d = os.path.dirname(f); m = modroot(d)
+    bymod.setdefault(m, set()).add("./" + os.path.relpath(d, m or ".") + "/")
 ran = {}
 rc, o = sh(meta["demo_cmd"]); ran["demo_with_change"] = dict(cmd=meta["demo_cmd"], rc=rc); print("demo with change rc", rc)
 ok = rc != 0
-cmd = "go test -vet=off -count=1 -skip TestSeedDemo " + " ".join(pkgs)
+cmd = " && ".join("(cd ./%s && go test -vet=off -count=1 -skip SeedDemo %s)" % (m or ".", " ".join(sorted(ps))) for m, ps in sorted(bymod.items()))
 rc, o = sh(cmd); ran["existing_tests_with_change"] = dict(cmd=cmd, rc=rc); print("existing tests with change rc", rc, o[-300:] if rc else "")
 ok = ok and rc == 0
 rc, _ = sh("git stash"); 
